@@ -130,7 +130,7 @@ def check_C03(ctx):
                                  "the oracle identifies vertices by their position (a harness-side identity token), i.e. it relies on vertex positions following C03 themselves"])
 
 def check_C17(ctx):
-    kernel_property(ctx, "C17", "Props/Properties_C17.v", ["swaps", "valid", "recycle"], {"SwapV", "SwapE", "SwapF", "SwapC"},
+    kernel_property(ctx, "C17", "Props/Properties_C17.v", ["swaps", "recycle", "valid", "recycle"], {"SwapV", "SwapE", "SwapF", "SwapC"},
                     assumptions=["full relabeling and involution are proved for the linear-scan implementation (consulted incidence kinds off) in every reachable state; "
                                  "with incidences on, the exchange of slots/flags/properties is proved in every mode, the relabeling of referring definitions is tied by lock step + oracle; "
                                  "the relabeling of definitions of deferred-DELETED entities is refuted (C17_relabel_of_deleted_definitions_refuted, KNOWN_FINDINGS D13)"])
@@ -161,7 +161,8 @@ def check_C04(ctx):
 def check_C01(ctx):
     kernel_property(ctx, "C01", "Props/Properties_C01.v", ["valid", "toggles", "recycle", "setops", "swaps"],
                     {"DelV", "DelE", "DelF", "DelC", "SwapV", "SwapE", "SwapF", "SwapC", "GC", "EnVBU", "EnEBU", "EnFBU", "AddE", "AddFV", "AddC", "SetE", "SetF", "SetC"},
-                    assumptions=["preservation of the invariant by every incremental update is not proved (see Properties_C01.v); it is checked by sound extracted decision "
+                    assumptions=["the invariant is PROVED along all histories of growth operations, checked add_cell and deferred deletions (Properties_C01_history.v); "
+                                 "for collect_garbage, swaps, set_*, immediate-mode deletion and unchecked add_cell it is checked by sound extracted decision "
                                  "procedures on every explored model state, which is compared cache for cache with the library",
                                  "valid histories: live-handle arguments, no halfface in two live cells, no face listing a halfedge twice"])
     # known finding: on cells that are not closed surfaces the re-ordering can corrupt a halfface list; reported when the
@@ -171,13 +172,19 @@ def check_C01(ctx):
         hfs = [l for l in blk if l.startswith("HFS ")]
         if hfs and hfs[0].startswith("HFS [6 2 0 2 4]"):
             ctx.known.append("add_cell on cells that are not closed surfaces leaves the halffaces of halfedge 0 as [6 2 0 2 4] (duplicate 2, halfface 8 lost); replay corpus/kernel/known-findings.scripts#nonmanifold-cells-reorder")
-    # the derived queries: theorems of the iterator component + its query lock step / brute-force oracle on every accessor
+    # further property files of C01: the history invariant (Kernel2/Exact*.v) and the derived queries (iterator component)
+    def also_prove(vfile):
+        save = (ctx.cov.get("obligations", 0), ctx.cov.get("discharged", 0), list(ctx.theorems), ctx.cov["checker_cmd"])
+        fw.coq_prove(ctx, vfile)
+        ctx.cov["obligations"] = ctx.cov.get("obligations", 0) + save[0]; ctx.cov["discharged"] = ctx.cov.get("discharged", 0) + save[1]
+        ctx.theorems = save[2] + ctx.theorems
+        ctx.cov["checker_cmd"] = save[3] + " ; same for " + vfile
+    if os.path.exists(os.path.join(fw.COQ, "Props/Properties_C01_history.v")):
+        also_prove("Props/Properties_C01_history.v")
+        ctx.cov["samples"] += [{"theorem": t} for t in fw.theorem_statements("Props/Properties_C01_history.v", 2)]
     try:
         import checks_iter
-        save = (ctx.cov["obligations"], ctx.cov["discharged"], list(ctx.theorems), ctx.cov["checker_cmd"])
-        ok = fw.coq_prove(ctx, "Props/Properties_C01_queries.v")
-        ctx.cov["obligations"] += save[0]; ctx.cov["discharged"] += save[1]; ctx.theorems = save[2] + ctx.theorems
-        ctx.cov["checker_cmd"] = save[3] + " ; same for Props/Properties_C01_queries.v"
+        also_prove("Props/Properties_C01_queries.v")
         qr = checks_iter.run_queries(ctx)
         checks_iter.judge_queries(ctx, qr, oracles=("C01",))
     except ImportError:
